@@ -299,6 +299,12 @@ def is_valid_ip(ip: str) -> bool:
         # getaddrinfo resolves empty strings to localhost, and truncates
         # on zero bytes.
         return False
+    if not ip.isascii():
+        # getaddrinfo runs its argument through the idna codec, which
+        # maps characters such as fullwidth digits, superscripts and
+        # soft hyphens to (or out of) ASCII: "4.4.4.\xb2" would be
+        # accepted as 4.4.4.2.
+        return False
     try:
         res = socket.getaddrinfo(
             ip, 0, socket.AF_UNSPEC, socket.SOCK_STREAM, 0, socket.AI_NUMERICHOST
